@@ -84,6 +84,13 @@ def catalog():
         "prog": {"setup": [build({"kind": "pool", "workers": 2}, 1, False)],
                  "threads": [[sub("f0", [["vsleep", 0.5, ["tag"]]]), sub("f1")], [sub("f2", [["vsleep", 0.25, ["tag"]]])]],
                  "settle": 2, "final": []}}
+    # a user's done-callback on a throttled future takes a second: the slot is free from the instant the delegate future is
+    # done, not from the instant the user's callbacks have returned
+    out["T7/slow-user-callback"] = {
+        "count": 1,
+        "prog": {"setup": [build(man, 1, False), sub("f0"), ["add_cb", "f0", "slow", ["op", ["sleep", 1.0]]], sub("f1"), sub("f2"), ["sleep", 0.01]],
+                 "threads": [[["sleep", 0.5], ["run", "ex", 0]], [["sleep", 2.5], ["runall", "ex"], ["sleep", 0.5], ["runall", "ex"]]],
+                 "settle": 2, "final": [["runall", "ex"], ["sleep", 0.5]]}}
     out["T6/block-none"] = {
         "count": None, "block": True,
         "prog": {"setup": [build(man, None, True)],
